@@ -5,7 +5,8 @@ import ast
 
 from sa.core import Ob
 from sa.pm import AnalysisError, norm, body_nodes
-from sa import gi, df, ru
+from sa import gi, df, ru, sym
+from sa.pm import Undecided
 from sa.gi import IntSet, iv, GuardWalker, SymbolicAtomizer, reach_sets
 
 B58 = "pycoin/encoding/b58.py"
@@ -33,181 +34,84 @@ def c11_1(ctx):
     cs = it.get("pycoin.contrib.bech32m", "CHARSET")
     ctx.check(cs == "qpzry9x8gf2tvdw0s3jn54khce6mua7l", "bech32-charset", BECH + ":1", "CHARSET is %r" % (cs,), sample={"charset": cs})
     ctx.check(it.get("pycoin.contrib.bech32m", "BECH32M_CONST") == 0x2BC830A3, "bech32m-const", BECH + ":1", "BECH32M_CONST is wrong")
-    f = ctx.func(BECH, "bech32_polymod")
-    g = df.single_defs(f.node).get("generator")
-    vals = [df.const_int(e) for e in g.elts] if isinstance(g, ast.List) else None
-    ctx.check(vals == [0x3B6A57B2, 0x26508E6D, 0x1EA119FA, 0x3D4233DD, 0x2A1462B3], "bch-generator", ctx.where(f), "BCH generator words are %s" % (vals,), sample={"generator": vals})
-    t = norm(f.node)
-    ctx.check("chk = 1" in t and "top = chk >> 25" in t and "chk = (chk & 33554431) << 5 ^ value" in t and "chk ^= generator[i] if top >> i & 1 else 0" in t and "for i in range(5):" in t, "polymod-shape", ctx.where(f), "bech32_polymod is not the BIP173 polymod")
-    v = ctx.func(BECH, "bech32_verify_checksum")
-    w = GuardWalker(ru.opaque)
-    ex = w.run(v.node.body)
-    got = {norm(e.value): sorted(gi.f_opaques(e.cond)) for e in ex if e.kind == "return"}
-    ctx.check(got.get("Encoding.BECH32") == ["const == 1"] and "const == BECH32M_CONST" in got.get("Encoding.BECH32M", []) and "None" in got, "checksum-constants", ctx.where(v), "checksum verification does not map residue 1 to BECH32 and BECH32M_CONST to BECH32M: %s" % got)
-    cc = ctx.func(BECH, "bech32_create_checksum")
-    t = norm(cc.node)
-    ctx.check("const = BECH32M_CONST if spec == Encoding.BECH32M else 1" in t and "polymod = bech32_polymod(values + [0, 0, 0, 0, 0, 0]) ^ const" in t and "return [polymod >> 5 * (5 - i) & 31 for i in range(6)]" in t, "checksum-creation", ctx.where(cc), "bech32_create_checksum is not the BIP173/350 checksum (6 symbols)")
-    h = ctx.func(BECH, "bech32_hrp_expand")
-    ctx.check("return [ord(x) >> 5 for x in hrp] + [0] + [ord(x) & 31 for x in hrp]" in norm(h.node), "hrp-expand", ctx.where(h), "bech32_hrp_expand is not high bits, 0, low bits")
+    for fn in ("bech32_polymod", "bech32_verify_checksum", "bech32_create_checksum", "bech32_hrp_expand", "bech32_encode"):
+        _refcheck(ctx, BECH, fn, "bm_" + fn.replace("bech32_", "") if fn != "bech32_encode" else "bm_bech32_encode", "bech32:%s" % fn)
     e = it.get("pycoin.contrib.bech32m", "Encoding")
     ctx.check(it.getattr(e, "BECH32") != it.getattr(e, "BECH32M"), "encoding-enum", BECH + ":1", "Encoding.BECH32 and BECH32M are not distinct")
+
+
+_REF = None
+
+
+def _ref():
+    global _REF
+    if _REF is None:
+        import os
+        _REF = ast.parse(open(os.path.join(os.path.dirname(os.path.dirname(os.path.abspath(__file__))), "spec", "ref_text_codecs.py")).read())
+    return _REF
+
+
+INTS = lambda t: t in ("chk", "top", "value", "i", "const", "polymod", "pos", "max_length", "acc", "bits", "maxv", "max_acc", "frombits", "tobits", "v", "prefix", "base", "mod", "witver", "d") or t.startswith(("len(", "ord(", "generator[", "bech32_polymod(", "data[0]"))
+
+
+def _refcheck(ctx, rel, dotted, refname, key, ints=None):
+    fi = ctx.p.functions.get(ctx.p.module(rel).name + "." + dotted) or ctx.func(rel, dotted)
+    return sym.against_reference(ctx, fi, _ref(), refname, key, ints or INTS, inline=False)
 
 
 # ------------------------------------------------------------------ C11.2
 def c11_2(ctx):
     f = ctx.func(BECH, "decode")
-    for subj, want, key in (({"len(decoded)"}, iv(2, 40).complement(), "program-length"), ({"data[0]"}, iv(17, None), "witness-version")):
-        w = GuardWalker(SymbolicAtomizer(ru.subject(subj), df.const_int))
-        ex = w.run(f.node.body)
-        s, n = ru.guard_reject_set(f.node, w, ex, _none_ret, U, E, pure=True, allow=("decoded is None",))
-        ctx.check(s == want, key, ctx.where(f), "decode rejects %s values %s on their own; BIP173/350: exactly %s" % (sorted(subj)[0], s.fmt(), want.fmt()), sample={"subject": sorted(subj)[0], "rejected": s.fmt()})
-    w = GuardWalker(ru.opaque)
-    ex = w.run(f.node.body)
-    ok_ret = [e for e in ex if e.kind == "return" and not _none_ret(e)]
-    if len(ok_ret) != 1:
-        raise AnalysisError("decode: expected one accepting return")
-    c = ok_ret[0].cond
-    from rules.C01 import can_be
-    v0, l20, l32, b32, b32m = "data[0] == 0", "len(decoded) != 20", "len(decoded) != 32", "spec != Encoding.BECH32", "spec != Encoding.BECH32M"
-    d0 = "data[0] != 0"
-
-    def sat(extra):
-        return can_be(gi.f_and(c, *extra), "\0")
-    # v0 with a length other than 20/32 is refused
-    ctx.check(not sat([("op", v0), ("op", l20), ("op", l32)]), "v0-length", ctx.where(f), "decode accepts witness version 0 with a program that is neither 20 nor 32 bytes")
-    ctx.check(not sat([("op", v0), ("op", b32)]) and sat([("op", v0), ("not", ("op", b32)), ("not", ("op", l20))]), "v0-needs-bech32", ctx.where(f), "decode accepts version 0 with the Bech32m constant (or refuses it with Bech32)")
-    ctx.check(not sat([("op", d0), ("op", b32m), ("not", ("op", v0))]) and sat([("op", d0), ("not", ("op", b32m)), ("not", ("op", v0))]), "v1plus-needs-bech32m", ctx.where(f), "decode accepts version >= 1 with the Bech32 constant (or refuses it with Bech32m)")
-    ctx.check("decoded = convertbits(data[1:], 5, 8, False)" in norm(f.node) and "hrpgot != hrp or data is None" in norm(f.node), "decode-steps", ctx.where(f), "decode does not check the HRP / convert 5->8 bits without padding")
-    ctx.check(norm(ok_ret[0].value) == "(data[0], decoded)", "decode-result", ctx.where(f), "decode does not return (version, program)")
-    # bech32_decode guards
+    hrpp, addrp = f.params()[:2]
+    DATA = "bech32_decode(%s)[1]" % addrp
+    DEC = "convertbits(%s[1:], 5, 8, False)" % DATA
+    for subj, want, key in (("len(%s)" % DEC, iv(2, 40).complement(), "program-length"), ("%s[0]" % DATA, iv(17, None), "witness-version")):
+        w = sym.int_walk(ctx, f, {subj})
+        fr = sym.exits_formula(w, _none_ret)
+        if fr is False or not gi.involves_subject(fr):
+            raise Undecided("bech32m.decode has no rejecting exit deciding on `%s`" % subj)
+        s = sym.must_set(fr, U, E)      # rejected whatever the other guards say
+        ctx.check(s == want, key, ctx.where(f), "decode rejects %s values %s on their own; BIP173/350: exactly %s" % (subj[:40], s.fmt(), want.fmt()), sample={"subject": subj[:60], "rejected": s.fmt()})
+    _refcheck(ctx, BECH, "decode", "bm_decode", "decode")
+    _refcheck(ctx, BECH, "bech32_decode", "bm_bech32_decode", "bech32-decode")
     g = ctx.func(BECH, "bech32_decode")
-    first = [n for n in g.node.body if isinstance(n, ast.If)][0]
-    parts = first.test.values if isinstance(first.test, ast.BoolOp) and isinstance(first.test.op, ast.Or) else [first.test]
-    rng = None
-    case = None
-    for p in parts:
-        if isinstance(p, ast.Call) and norm(p.func) == "any" and isinstance(p.args[0], ast.GeneratorExp):
-            at = SymbolicAtomizer(ru.subject({"ord(x)"}), df.const_int)
-            rng = gi.sat_set(at(p.args[0].elt), U, E)
-        else:
-            case = p
-    ctx.check(rng == iv(33, 126).complement(), "char-range", ctx.where(g, first), "bech32_decode rejects characters with code %s, BIP173: outside 33..126" % (rng.fmt() if rng is not None else None), sample={"subject": "ord(x)", "rejected": rng.fmt() if rng is not None else None})
-    okc = False
-    if isinstance(case, ast.BoolOp) and isinstance(case.op, ast.And) and len(case.values) == 2:
-        forms = sorted(norm(v) for v in case.values)
-        okc = forms in (sorted(["bech.lower() != bech", "bech.upper() != bech"]), sorted(["bech != bech.lower()", "bech != bech.upper()"]))
-    ctx.check(okc, "mixed-case", ctx.where(g, first),
-              "bech32_decode's mixed-case test is `%s`; BIP173 rejects exactly strings that differ from both their lower- and upper-case form (a string without letters is not mixed case)" % (norm(case) if case is not None else None),
-              sample={"test": norm(case) if case is not None else None})
-    ctx.check(_none3(first), "reject-returns-none", ctx.where(g, first), "the character/case rejection does not return (None, None, None)")
-    const = ru.const_resolver(ctx, g, {"len(bech)"})
-    w = GuardWalker(SymbolicAtomizer(ru.subject({"pos"}), const))
-    ex = w.run(g.node.body)
-    s, n = ru.guard_reject_set(g.node, w, ex, _none_ret, U, E)
-    ctx.check(s == (iv(None, 0) | iv(("s", -6), None)), "separator-position", ctx.where(g), "bech32_decode rejects separator positions %s; BIP173: pos < 1 or pos + 7 > len" % s.fmt("len"), sample={"subject": "pos", "rejected": s.fmt("len")})
-    const = ru.const_resolver(ctx, g, {"max_length"})
-    w = GuardWalker(SymbolicAtomizer(ru.subject({"len(bech)"}), const))
-    ex = w.run(g.node.body)
-    s, n = ru.guard_reject_set(g.node, w, ex, _none_ret, U, E)
-    ctx.check(s == iv(("s", 1), None), "max-length", ctx.where(g), "bech32_decode rejects lengths %s; must be exactly > max_length" % s.fmt("max_length"))
     a = g.node.args
     ctx.check(len(a.defaults) == 1 and df.const_int(a.defaults[0]) == 90, "max-length-default", ctx.where(g), "max_length default is not 90")
-    t = norm(g.node)
-    ctx.check("pos = bech.rfind('1')" in t and "if not all((x in CHARSET for x in bech[pos + 1:])):" in t and "spec = bech32_verify_checksum(hrp, data)" in t and "if spec is None:" in t and "return (hrp, data[:-6], spec)" in t and "bech = bech.lower()" in t,
-              "decode-pipeline", ctx.where(g), "bech32_decode does not split at the last '1', check the charset, verify the checksum and strip its 6 symbols")
-    cb = ctx.func(BECH, "convertbits")
-    t = norm(cb.node)
-    ctx.check("elif bits >= frombits or acc << tobits - bits & maxv:" in t and "if value < 0 or value >> frombits:" in t, "padding-rules", ctx.where(cb), "convertbits(pad=False) does not reject residual / non-zero padding bits or out-of-range values")
-    en = ctx.func(BECH, "encode")
-    t = norm(en.node)
-    ctx.check("spec = Encoding.BECH32 if witver == 0 else Encoding.BECH32M" in t and "if decode(hrp, ret) == (None, None):" in t, "encode-spec", ctx.where(en), "encode does not choose Bech32 for v0 / Bech32m otherwise and self-check by decoding")
-    # ParseAPI repeats the version/spec test
-    pa = ctx.func("pycoin/networks/ParseAPI.py", "ParseAPI._bech32m")
-    t = norm(pa.node)
-    ctx.check("if version == 0 and spec != bech32m.Encoding.BECH32:" in t and "if version != 0 and spec != bech32m.Encoding.BECH32M:" in t, "parseapi-spec", ctx.where(pa), "ParseAPI._bech32m does not tie the checksum constant to the witness version")
-
-
-def _none3(ifnode):
-    return any(isinstance(s, ast.Return) and isinstance(s.value, ast.Tuple) and len(s.value.elts) == 3 and all(isinstance(x, ast.Constant) and x.value is None for x in s.value.elts) for s in ifnode.body)
+    _refcheck(ctx, BECH, "convertbits", "bm_convertbits", "padding-rules")
+    _refcheck(ctx, BECH, "encode", "bm_encode", "encode-spec")
 
 
 # ------------------------------------------------------------------ C11.3
 def c11_3(ctx):
-    for rel, name, hashname, fail in ((B58, "a2b_hashed_base58", "double_sha256", "raise"), (PSTR, "b58_double_sha256", "double_sha256", "none"), (GRSP, "b58_groestl", "groestlHash", "none")):
+    for rel, name, hashname, refname in ((B58, "a2b_hashed_base58", "double_sha256", "b58_a2b_hashed"), (PSTR, "b58_double_sha256", "double_sha256", "ps_b58_double_sha256"), (GRSP, "b58_groestl", "groestlHash", "grs_b58_groestl")):
         f = ctx.func(rel, name)
-        w = GuardWalker(ru.opaque)
-        ex = w.run(f.node.body)
-        good = [e for e in ex if e.kind == "return" and e.value is not None and norm(e.value) == "data"]
-        ok = len(good) == 1
-        if ok:
-            ops = gi.f_opaques(good[0].cond)
-            ok = any(o in ("%s(data)[:4] == the_hash" % hashname, "the_hash == %s(data)[:4]" % hashname) for o in ops)
-            from rules.C01 import can_be
-            atom = [o for o in ops if "[:4]" in o]
-            ok = ok and atom and not can_be(gi.f_and(good[0].cond, ("not", ("op", atom[0]))), "\0")
-        ctx.check(ok, "checksum-dominates:%s" % name, ctx.where(f),
-                  "%s returns the payload under %s; it must be returned only when the first 4 bytes of %s(payload) EQUAL the 4 trailing bytes (a prefix test accepts strings shorter than a checksum)"
-                  % (name, [gi.f_opaques(e.cond) for e in good], hashname), sample={"function": f.qualname, "guards": [gi.f_opaques(e.cond) for e in good]})
-        t = norm(f.node)
-        ctx.check("data, the_hash = (data[:-4], data[-4:])" in t, "checksum-split:%s" % name, ctx.where(f), "%s does not split payload / 4-byte checksum" % name)
-        others = [e for e in ex if e not in good]
-        if fail == "raise":
-            ctx.check(all(ru.is_raise_of("EncodingError")(e) for e in others) and others, "checksum-failure:%s" % name, ctx.where(f), "%s does not raise EncodingError on a bad checksum" % name)
-        else:
-            ctx.check(all(_none_ret(e) for e in others) and others, "checksum-failure:%s" % name, ctx.where(f), "%s does not return None on a bad checksum" % name)
-    e = ctx.func(B58, "b2a_hashed_base58")
-    ctx.check("return b2a_base58(data + double_sha256(data)[:4])" in norm(e.node), "checksum-writer", ctx.where(e), "b2a_hashed_base58 does not append the first 4 bytes of double_sha256(data)")
-    v = ctx.func(B58, "is_hashed_base58_valid")
-    t = norm(v.node)
-    ctx.check("a2b_hashed_base58(base58)" in t and "except EncodingError:" in t and "return False" in t and "return True" in t, "validity-predicate", ctx.where(v), "is_hashed_base58_valid is not `decodes without EncodingError`")
-    tl = ctx.func(BC, "to_long")
-    t = norm(tl.node)
-    ctx.check("except Exception:" in t and "raise EncodingError(" in t, "bad-character", ctx.where(tl), "to_long does not map lookup failures to EncodingError")
+        w = sym.walk(ctx, f)
+        good = [e for e in w.exits if e.kind == "return" and e.value is not None and not _none_ret(e)]
+        if not good:
+            raise Undecided("%s has no accepting return" % name)
+        for e in good:
+            ops = gi.f_opaques(e.cond) if e.cond not in (True, False) else []
+            eq = [o for o in ops if " == " in o and "%s(" % hashname in o and "[:4]" in o and "[-4:]" in o]
+            ok = bool(eq) and sym.entails(e.cond, ("op", eq[0])) and norm(e.value).endswith("[:-4]")
+            ctx.check(ok, "checksum-dominates:%s" % name, ctx.where(f, e.node),
+                      "%s returns `%s` under %s; the payload (all but the last 4 bytes) must be returned only when the first 4 bytes of %s(payload) EQUAL the 4 trailing bytes (a prefix test accepts strings shorter than a checksum)"
+                      % (name, norm(e.value)[:50], ops, hashname), sample={"function": f.qualname, "guards": ops})
+        _refcheck(ctx, rel, name, refname, "checksum:%s" % name)
+    _refcheck(ctx, B58, "b2a_hashed_base58", "b58_b2a_hashed", "checksum-writer")
+    _refcheck(ctx, B58, "is_hashed_base58_valid", "b58_is_valid", "validity-predicate")
 
 
 # ------------------------------------------------------------------ C11.4
 def c11_4(ctx):
-    f = ctx.func(BC, "to_long")
-    loops = [n for n in f.node.body if isinstance(n, ast.For)]
-    if len(loops) != 1:
-        raise AnalysisError("to_long: expected one loop")
-    w = GuardWalker(SymbolicAtomizer(ru.subject({"v"}), df.const_int))
-    w.block(loops[0].body, True)
-    inc = [(st, r) for st, r in w.visits if isinstance(st, ast.AugAssign) and norm(st.target) == "prefix"]
-    ok = len(inc) == 1 and gi.sat_set(inc[0][1], U, E) == iv(0, 0) and df.const_int(inc[0][0].value) == 1
-    body = [norm(s) for s in loops[0].body]
-    acc = [i for i, s in enumerate(loops[0].body) if isinstance(s, ast.Try) and "v += lookup_f(c)" in norm(s)]
-    mul = [i for i, s in enumerate(loops[0].body) if norm(s) == "v *= base"]
-    tst = [i for i, s in enumerate(loops[0].body) if isinstance(s, ast.If) and "prefix += 1" in norm(s)]
-    ok = ok and acc and mul and tst and mul[0] < acc[0] < tst[0]
-    ctx.check(ok, "leading-zero-count", ctx.where(f), "to_long does not count a leading zero exactly when the accumulated value is still 0 after the digit was added", sample={"increment_when_v_in": gi.sat_set(inc[0][1], U, E).fmt() if inc else None})
-    inits = {norm(s.targets[0]): norm(s.value) for s in f.node.body if isinstance(s, ast.Assign)}
-    ctx.check(inits.get("prefix") == "0" and inits.get("v") == "0", "to-long-init", ctx.where(f), "to_long does not start from v = 0, prefix = 0")
-    g = ctx.func(BC, "from_long")
-    w = GuardWalker(SymbolicAtomizer(ru.subject({"v"}), df.const_int))
-    w.run(g.node.body)
-    app = [(st, r) for st, r in w.visits if "ba.append(charset(mod))" in norm(st)]
-    s = gi.sat_set(app[0][1], U, E) if app else None
-    ctx.check(len(app) == 1 and s == iv(1, None), "digits-only-for-positive", ctx.where(g),
-              "from_long emits a digit while v is in %s; digits must be produced only while v > 0 (a value of 0 contributes no digit: all-zero inputs would gain one)" % (s.fmt() if s is not None else None),
-              sample={"subject": "v", "digit_emitted_when": s.fmt() if s is not None else None})
-    top = [norm(s) for s in g.node.body if not (isinstance(s, ast.Expr) and isinstance(s.value, ast.Constant))]
-    i_loop = [i for i, s in enumerate(g.node.body) if isinstance(s, ast.While)]
-    i_ext = [i for i, s in enumerate(g.node.body) if norm(s) == "ba.extend([charset(0)] * prefix)"]
-    i_rev = [i for i, s in enumerate(g.node.body) if norm(s) == "ba.reverse()"]
-    ctx.check(bool(i_loop and i_ext and i_rev) and i_loop[0] < i_ext[0] < i_rev[0] and len(i_rev) == 1, "prefix-zeros-then-reverse", ctx.where(g), "from_long does not append `prefix` zero digits after the digit loop and before the single reverse")
-    ctx.check("v, mod = divmod(v, base)" in norm(g.node), "digit-extraction", ctx.where(g), "from_long does not extract digits with divmod(v, base)")
-    e = ctx.func(B58, "b2a_base58")
-    t = norm(e.node)
-    ctx.check("v, prefix = to_long(256, lambda x: x, s)" in t and "s = from_long(v, prefix, BASE58_BASE, lambda v: BASE58_ALPHABET[v])" in t, "b2a-bases", ctx.where(e), "b2a_base58 does not convert base 256 -> 58 through the alphabet")
-    d = ctx.func(B58, "a2b_base58")
-    t = norm(d.node)
-    ctx.check("v, prefix = to_long(BASE58_BASE, lambda c: BASE58_LOOKUP[c], s.encode('utf8'))" in t and "return from_long(v, prefix, 256, lambda x: x)" in t, "a2b-bases", ctx.where(d), "a2b_base58 does not convert base 58 -> 256 through the inverse lookup")
+    _refcheck(ctx, BC, "to_long", "bc_to_long", "leading-zero-count")
+    _refcheck(ctx, BC, "from_long", "bc_from_long", "digits-only-for-positive")
+    _refcheck(ctx, B58, "b2a_base58", "b58_b2a", "b2a-bases")
+    _refcheck(ctx, B58, "a2b_base58", "b58_a2b", "a2b-bases")
 
 
 OBLIGATIONS = [
     Ob("C11.1", "alphabets, BCH generator and checksum constants equal the standards", c11_1, floor=10, engines="TB,CE"),
-    Ob("C11.2", "segwit-address decode decision guards (version, length, spec, characters, case, separator, length limit)", c11_2, floor=15, engines="GI", breaks_if="HRPs/strings without letters; version/constant mismatches"),
-    Ob("C11.3", "payload returned only after the 4-byte checksum comparison (equality, not prefix)", c11_3, floor=10, engines="CFG,GI", breaks_if="strings decoding to fewer than 4 bytes"),
-    Ob("C11.4", "leading-zero bookkeeping of the radix conversion", c11_4, floor=6, engines="GI,DF", breaks_if="empty / all-zero byte strings"),
+    Ob("C11.2", "segwit-address decode decision guards (version, length, spec, characters, case, separator, length limit)", c11_2, floor=6, engines="SYM,GI", breaks_if="HRPs/strings without letters; version/constant mismatches"),
+    Ob("C11.3", "payload returned only after the 4-byte checksum comparison (equality, not prefix)", c11_3, floor=8, engines="SYM", breaks_if="strings decoding to fewer than 4 bytes"),
+    Ob("C11.4", "leading-zero bookkeeping of the radix conversion", c11_4, floor=4, engines="SYM", breaks_if="empty / all-zero byte strings"),
 ]
